@@ -398,6 +398,54 @@ func checkC04(e *Engine, r *Report) {
 	r.MinInstances("calls yielding libmem updates in the policies", nUpd, 4)
 	r.MinInstances("calls yielding the requester's zone", nZone, 3)
 
+	// BL: the memory nodes a balloon's containers are offered follow the balloon's current CPUs: in every iteration of
+	// updatePinning the balloon's Mems are recomputed with closestMems(Cpus ∪ SharedIdleCpus) before any container of it is pinned
+	if up := e.Fn(pkgBL, "balloons.updatePinning"); up != nil {
+		fMems := e.Field(pkgBL, "Balloon", "Mems")
+		closest := e.Fn(pkgBL, "balloons.closestMems")
+		pin := e.Fn(pkgBL, "balloons.pinCpuMem")
+		n := 0
+		for _, lp := range sliceLoops(up) {
+			lp := lp
+			if paramIndex(rangedSlice(lp)) != 1 {
+				continue
+			}
+			n++
+			refreshes := func(in ssa.Instruction) bool {
+				st, ok := in.(*ssa.Store)
+				if !ok || fieldOfAddr(st.Addr) != fMems || !lp.elem(st.Addr.(*ssa.FieldAddr).X) {
+					return false
+				}
+				call, ok := st.Val.(*ssa.Call)
+				if !ok || !e.callOf(call, closest) {
+					return false
+				}
+				// of the union of the balloon's own and shared idle CPUs
+				a := callArgs(call)
+				u, ok := a[len(a)-1].(*ssa.Call)
+				if !ok || callObj(u.Common()) == nil || callObj(u.Common()).Name() != "Union" {
+					return false
+				}
+				f1, b1 := loadedField(callArgs(u)[0])
+				f2, b2 := loadedField(variadicSingle(callArgs(u)[1]))
+				names := map[string]bool{}
+				if f1 != nil {
+					names[f1.Name()] = true
+				}
+				if f2 != nil {
+					names[f2.Name()] = true
+				}
+				return names["Cpus"] && names["SharedIdleCpus"] && lp.elem(b1) && lp.elem(b2)
+			}
+			p := FindPath(PathQuery{Fn: up, From: lp.start, Block: refreshes, Target: func(in ssa.Instruction) bool { return e.callOf(in, pin) }})
+			ok := p == nil && !refreshes(lp.start)
+			if refreshes(lp.start) {
+				ok = true
+			}
+			r.Check("R1:bl-mems-follow-cpus", "data-flow zone applied", "before a balloon's containers are pinned the balloon's memory nodes are recomputed from its current Cpus ∪ SharedIdleCpus", e.InstrPos(lp.start), up, ok, e.pathString(p), true)
+		}
+		r.MinInstances("balloon loop in updatePinning", n, 1)
+	}
 	// BL: allocMem keeps to the allocator's books — a container the allocator already holds an assignment for is
 	// re-allocated (widened), one it does not know is allocated; and what allocMem returns on success is the zone the
 	// allocator answered with
